@@ -145,3 +145,81 @@ SPECS['C11'] = dict(queries=c11, assumptions=COMMON_ASSUMPTIONS + [
     "libstdc++'s chrono -> timespec conversion divides by 10^9: the encoder replaces that quotient by 0 and the models read {sec,nsec} as sec*10^9+nsec",
     "liveness (event wakes every blocked waiter) is asserted as absence of deadlock, only in scenarios without re-activation (the property's proviso)"],
     outside=["re-activation while waiters are blocked", "more than 4 threads", "real-time durations (time is a nondeterministic time-out)"])
+
+
+# ------------------------------------------------------------------------------------------------ C01 / C02
+WRAPS = {'guarded': 1, 'guarded_opt': 2, 'shared_guarded': 3, 'shared_guarded_opt': 4, 'ordered_guarded': 5}
+MUTEXES = {'mutex': 1, 'timed_mutex': 2, 'shared_mutex': 3, 'shared_timed_mutex': 4}
+
+
+def gq(name, wrap, mutex, ops, rounds, cover_extra=0, **kw):
+    """ops: list of per-thread operation lists (names without the OP_ prefix)"""
+    threads = [(f'T{i + 1}', f'vp_t{i + 1}') for i in range(len(ops))]
+    defines = [f'WRAP={WRAPS[wrap]}', f'MUTEX={MUTEXES[mutex]}'] + [f"T{i + 1}_OPS=" + ','.join('OP_' + o for o in ol) for i, ol in enumerate(ops)]
+    cover = (1 << len(ops)) - 1
+    kw.setdefault('unwind', 2)
+    return mk(name, 'c01_guarded.cpp', threads, rounds, final='vp_final', cover=cover, defines=defines,
+              opts={'yield_blocks': False}, must_cover=cover_extra, **kw)
+
+
+def c01(tier):
+    qs = []
+    if tier == 'quick':
+        qs.append(gq('guarded_mutex', 'guarded', 'mutex', [['LOCK_RMW', 'LOAD'], ['TRY_RMW', 'STORE']], 3))
+        qs.append(gq('guarded_timed', 'guarded', 'timed_mutex', [['TRYFOR_RMW', 'LOCK_RMW'], ['TRYUNTIL_RMW', 'ASSIGN']], 3))
+        qs.append(gq('guarded_opt_mutex', 'guarded_opt', 'mutex', [['LOCK_RMW', 'STORE'], ['LOAD', 'TRY_RMW']], 3))
+        qs.append(gq('shared_guarded_smutex', 'shared_guarded', 'shared_mutex', [['LOCK_RMW', 'TRY_RMW'], ['LOCK_RMW']], 3))
+        qs.append(gq('shared_guarded_opt_stm', 'shared_guarded_opt', 'shared_timed_mutex', [['TRYFOR_RMW', 'LOCK_RMW'], ['TRYUNTIL_RMW']], 3))
+        qs.append(gq('ordered_stm', 'ordered_guarded', 'shared_timed_mutex', [['MODIFY', 'LOAD'], ['STORE', 'MODIFY']], 3))
+        qs.append(gq('guarded_mutex_3t', 'guarded', 'mutex', [['LOCK_RMW'], ['LOCK_RMW'], ['TRY_RMW']], 2))
+    else:
+        excl = ['LOCK_RMW', 'TRY_RMW']
+        for w in ('guarded', 'guarded_opt', 'shared_guarded', 'shared_guarded_opt'):
+            for m in MUTEXES:
+                timed = m in ('timed_mutex', 'shared_timed_mutex')
+                t1 = ['LOCK_RMW', 'TRYFOR_RMW' if timed else 'TRY_RMW']
+                t2 = ['TRYUNTIL_RMW' if timed else 'TRY_RMW', 'LOCK_RMW']
+                t3 = ['LOAD', 'STORE'] if w in ('guarded', 'guarded_opt') else ['LOCK_RMW']
+                qs.append(gq(f'{w}_{m}_3t_R3', w, m, [t1, t2, t3], 3, timeout=2400))
+        for m in MUTEXES:
+            qs.append(gq(f'ordered_{m}_3t_R3', 'ordered_guarded', m, [['MODIFY', 'LOAD'], ['STORE', 'MODIFY'], ['MODIFY', 'ASSIGN']], 3, timeout=2400))
+        qs.append(gq('guarded_mutex_4t_R2', 'guarded', 'mutex', [['LOCK_RMW'], ['TRY_RMW'], ['LOAD'], ['ASSIGN']], 2, timeout=2400))
+        qs.append(gq('guarded_mutex_2t_R4', 'guarded', 'mutex', [['LOCK_RMW', 'LOAD'], ['TRY_RMW', 'STORE']], 4, timeout=2400))
+    return qs
+
+
+SPECS['C01'] = dict(queries=c01, assumptions=COMMON_ASSUMPTIONS + [
+    "payload {int a; int b;} with two-step copy/assignment (a, switch point, b): an access that overlaps another shows up as a != b, a lost update as a wrong final count",
+    "pthread_mutex / pthread_rwlock modelled as owner word / writer word + reader mask; lock blocks while held; timed forms may time out whenever they would block",
+    "the client program (one operation list per thread) is fixed per query; interleavings are symbolic"],
+    outside=["recursive mutexes, operator T()", "more than 4 threads or 2 operations per thread", "client programs not in the enumerated list"])
+
+
+def c02(tier):
+    qs = []
+    if tier == 'quick':
+        qs.append(gq('shared_guarded_smutex_rrw', 'shared_guarded', 'shared_mutex', [['SHARED_READ'], ['SHARED_READ'], ['LOCK_RMW']], 3, cover_extra=128))
+        qs.append(gq('shared_guarded_stm_timed', 'shared_guarded', 'shared_timed_mutex', [['TRYSHAREDFOR_READ'], ['CLOCK_READ'], ['TRYFOR_RMW']], 3, cover_extra=128))
+        qs.append(gq('ordered_stm_read_modify', 'ordered_guarded', 'shared_timed_mutex', [['CLOCK_READ'], ['SHARED_READ'], ['MODIFY']], 3, cover_extra=128))
+        qs.append(gq('shared_guarded_mutex_fallback', 'shared_guarded', 'mutex', [['SHARED_READ'], ['TRYSHARED_READ'], ['LOCK_RMW']], 3))
+        qs.append(gq('shared_guarded_opt_timed_fallback', 'shared_guarded_opt', 'timed_mutex', [['TRYSHAREDUNTIL_READ'], ['SHARED_READ'], ['TRY_RMW']], 3))
+        qs.append(gq('ordered_smutex_store', 'ordered_guarded', 'shared_mutex', [['SHARED_READ', 'TRYSHARED_READ'], ['STORE', 'MODIFY']], 3))
+    else:
+        for w in ('shared_guarded', 'shared_guarded_opt', 'ordered_guarded'):
+            for m in MUTEXES:
+                timed = m in ('timed_mutex', 'shared_timed_mutex')
+                sharedcap = m in ('shared_mutex', 'shared_timed_mutex')
+                r1 = ['SHARED_READ', 'TRYSHAREDFOR_READ' if timed else 'TRYSHARED_READ']
+                r2 = ['CLOCK_READ', 'TRYSHAREDUNTIL_READ' if timed else 'TRYSHARED_READ']
+                wr = ['MODIFY', 'STORE'] if w == 'ordered_guarded' else ['LOCK_RMW', 'TRYFOR_RMW' if timed else 'TRY_RMW']
+                qs.append(gq(f'{w}_{m}_rrw_R3', w, m, [r1, r2, wr], 3, cover_extra=128 if sharedcap else 0, timeout=2400))
+        qs.append(gq('shared_guarded_smutex_rrww_R2', 'shared_guarded', 'shared_mutex', [['SHARED_READ'], ['SHARED_READ'], ['LOCK_RMW'], ['TRY_RMW']], 2, cover_extra=128, timeout=2400))
+    return qs
+
+
+SPECS['C02'] = dict(queries=c02, assumptions=SPECS['C01']['assumptions'] + [
+    "'readers can share' is decided twice: the witness of the shared-capable queries must reach a state with two readers inside (coverage bit 7), "
+    "and a shared acquisition that ends a context blocked while only readers hold the lock is an assertion failure",
+    "pthread_rwlock model follows glibc's default: readers are not held back by waiting writers",
+    "the deferred_guarded clause of C02 is decided by the C06 harness"],
+    outside=["more than 4 threads or 2 operations per thread", "writer starvation / fairness"])
